@@ -38,7 +38,7 @@ Record RelH (bf : bool) (now0 : Z) (s : tstate) (hd : list entry) (l : list tinf
   r_tset : forall t, In t l -> 0 <= ti_tset t <= cnow s;
   r_fixed_eff : forall t, In t l -> ti_kind t = KFixed -> ti_eff t = ti_eff0 t /\ ti_tset t = ti_t0 t;
   r_band : bf = true -> forall t, In t l -> ti_kind t = KFixed ->
-           ti_eff0 t + 2 * STEP <= ti_t0 t + NEAR -> FIX <= ti_slot t
+           ti_eff0 t < ti_t0 t + NEAR -> FIX <= ti_slot t
 }.
 
 (** ** the drain potential: an upper bound on the number of queue-entry evaluations left *)
